@@ -371,6 +371,7 @@ def register(M):
         v0 = ex.read_path(c0, p0)
         if isinstance(v0, Lazy):
             n = z3.BitVec(v0.name + '.len', 64)      # length of an unconstrained vector: one symbolic value
+            ex.add(z3.ULE(n, z3.BitVecVal((1 << 63) - 1, 64)))       # (a Vec never holds more than isize::MAX bytes)
             return n
         cell, path, v = vec_at(ex, a[0])
         return bv(len(v.items))
